@@ -108,6 +108,13 @@ def step(state, op, sim_buffers):
         new["aux"] = d
         order = names + (["aux"] if "aux" not in names else [])
         return state.copy(buffers=tuple((n, new[n]) for n in order)), None
+    if kind == "register_alias":         # register_buffer("reference", <the spot buffer>)
+        cur = dict(state.buffers)
+        d = state.declared if state.declared is not None else cur["spot"]
+        names = [n for n, _ in state.buffers]
+        cur["reference"] = d
+        order = names + (["reference"] if "reference" not in names else [])
+        return state.copy(buffers=tuple((n, cur[n]) for n in order)), None
     if kind == "set_default":
         return state.copy(default=arg), None
     if kind == "noop":                   # an operation on another instrument
